@@ -430,7 +430,7 @@ def nontrivial_trim(c):
     return vlib.ta_nonempty(a) or len(vlib.ta_states(a)) > len(vlib.ta_productive(a))
 
 
-def single_cases(tier, rng, op, frac_quick, extra=None, nrand_quick=3000, nrand_thorough=20000, nums=("id", "rev", "sparse", "perm"), bigger=False, wide=True):
+def single_cases(tier, rng, op, frac_quick, extra=None, nrand_quick=3000, nrand_thorough=20000, nums=("id", "rev", "sparse", "perm"), bigger=False, wide=True, fan=400):
     """B1' (<=3 states, <=3 rules over a,b,g,f; TLC-enumerated) + seeded random automata, each under a presentation"""
     cases = []
     frac = 1.0 if tier == "thorough" else frac_quick
@@ -457,6 +457,16 @@ def single_cases(tier, rng, op, frac_quick, extra=None, nrand_quick=3000, nrand_
             extra(d, rng)
         maybe_split(d, rng)
         cases.append(d)
+    if fan:
+        # the FAN family: one child tuple under several parents / symbols, identical rule sets (see gen.fan_ta)
+        for i in range(8 * fan if tier == "thorough" else fan):
+            d = {"id": ["fan", i], "op": op, "src": "fan"}
+            d["A"] = gen.present(gen.fan_ta(rng), rng, rng.choice(nums))
+            d["syms"] = gen.syms_of(d["A"])
+            if extra:
+                extra(d, rng)
+            maybe_split(d, rng)
+            cases.append(d)
     if wide:
         # the WIDE family: ranks swept across size thresholds (see gen.wide_ta)
         ranks = gen.WIDE_THOROUGH if tier == "thorough" else gen.WIDE_QUICK
@@ -546,7 +556,7 @@ def check_C04(tier, seed, res, replay=None):
     if replay:
         return do_replay(res, rd, replay)
     rng = random.Random(seed)
-    cases = single_cases(tier, rng, "sim", 0.5, extra=dense)
+    cases = single_cases(tier, rng, "sim", 0.5, extra=dense, fan=2500)
     for k in load_killers("sim.ndjson"):
         cases.append(dict(k, op="sim"))
     nt = lambda c: c["n"] >= 2 and any(len(r[1]) for r in c["A"]["rules"])
@@ -562,8 +572,9 @@ def check_C04(tier, seed, res, replay=None):
     # ExplicitLTS::post), the initial partition / relation and the engine's answer on it, judged by TraceSimEnc
     pool = [c for c in cases if c.get("op") == "sim" and c["A"]["rules"] and c.get("src") != "wide"]
     rng.shuffle(pool)
+    pool.sort(key=lambda c: c.get("src") != "fan")          # the fan family first (stable: the rest stays shuffled)
     sample = []
-    for c in pool[:15000 if tier == "thorough" else 3000]:
+    for c in pool[:20000 if tier == "thorough" else 5000]:
         for d in c["dirs"]:
             sample.append({"id": c["id"], "op": "simenc", "dir": d, "A": c["A"], "n": c["n"]})
     bind_events(res, rd, "simenc", "SimEnc", sample, "TraceSimEnc.tla")
@@ -622,7 +633,7 @@ def check_C06(tier, seed, res, replay=None):
     if replay:
         return do_replay(res, rd, replay)
     rng = random.Random(seed)
-    cases = single_cases(tier, rng, "compl", 0.05, extra=compl_extra, nrand_quick=1500, nrand_thorough=8000, wide=False)
+    cases = single_cases(tier, rng, "compl", 0.05, extra=compl_extra, nrand_quick=1500, nrand_thorough=8000, wide=False, fan=0)
     for k in load_killers("compl.ndjson"):
         cases.append(dict(k, op="compl"))
     nt = lambda c: vlib.ta_nonempty(c["A"])
